@@ -6,11 +6,13 @@ mod c02;
 mod c03;
 mod c03_adaptive;
 mod c04;
+mod c05;
 mod c06;
 mod coin;
 mod c13;
 mod c14;
 mod dispatch;
+mod fri_sim;
 mod hostile;
 mod pipe;
 mod proto;
@@ -34,7 +36,9 @@ fn main() {
         "C02" => c02::spec(),
         "C03" => c03::spec(),
         "C04" => c04::spec(),
+        "C05" => c05::spec_c05(),
         "C06" => c06::spec(),
+        "C15" => c05::spec_c15(),
         "C13" => c13::spec(),
         "C14" => c14::spec(),
         _ => {
